@@ -16,7 +16,7 @@ VERIF = os.path.dirname(os.path.dirname(os.path.abspath(__file__)))
 REPO = os.environ.get("PIKA_REPO", "/repo")
 BUILD = os.path.join(REPO, "_build")
 PIKAFACTS = os.path.join(VERIF, "bin", "pikafacts")
-CACHE = os.path.join(VERIF, ".cache")
+CACHE = os.environ.get("VERIF_CACHE") or os.path.join(VERIF, ".cache")
 KNOWN = os.path.join(VERIF, "known_functions.txt")
 LIBS = os.path.join(REPO, "libs", "pika")
 
